@@ -67,6 +67,9 @@ type Desc struct {
 	// Attr: the shapes are registered under this Float1 attribute (a decoy shape sits under the position
 	// attribute of the same fields) and the canvas is marched with MarchOnAttribute(Attr) / ...Parallel
 	Attr string `json:"attr,omitempty"`
+	// Decoys: number of further Float1 functions of every field besides Attr (default / 1: the position attribute;
+	// 2: also "aux")
+	Decoys int `json:"decoys,omitempty"`
 	// Remarch: the canvas is marched twice before the judged call (once at a lower cutoff, once at the same)
 	Remarch bool `json:"remarch,omitempty"`
 	// FieldMarch: the single field is also marched through Field.March / Field.Voxelize
@@ -159,10 +162,14 @@ func buildFieldsAttr(d Desc) []marching.Field {
 	for i, f := range fs {
 		c := f.Domain.Center()
 		fn := f.Float1Functions[modeling.PositionAttribute]
-		fs[i] = marching.Field{Domain: f.Domain, Float1Functions: map[string]sample.Vec3ToFloat{
+		fns := map[string]sample.Vec3ToFloat{
 			d.Attr:                     fn,
 			modeling.PositionAttribute: func(v vector3.Float64) float64 { return v.Distance(c) - 1.7/d.Cpu },
-		}}
+		}
+		if d.Decoys >= 2 {
+			fns["aux"] = func(v vector3.Float64) float64 { return v.Distance(c) - 2.3/d.Cpu }
+		}
+		fs[i] = marching.Field{Domain: f.Domain, Float1Functions: fns}
 	}
 	switch {
 	case d.Mode == "combine" && len(fs) > 1:
@@ -516,7 +523,25 @@ func signedVolumeCells(ps []vector3.Float64, idx []int, cpu float64) float64 {
 	return vol
 }
 
+// CombineFields / MirrorAxis / Subtract of a field with several Float1 functions depend on the iteration order of a Go
+// map (which attribute's closure is built last), and AddFieldParallel2 on the order in which its workers deliver: such
+// cases are built and judged up to four times, the first failing outcome is reported.
 func evalCase(d Desc) outcome {
+	n := 1
+	if d.Attr != "" && (d.Mode == "combine" || d.Mode == "mirror" || d.Mode == "subtract" || d.AddPar2) {
+		n = 4
+	}
+	var o outcome
+	for i := 0; i < n; i++ {
+		o = evalCaseOnce(d)
+		if o.GoFail != "" {
+			break
+		}
+	}
+	return o
+}
+
+func evalCaseOnce(d Desc) outcome {
 	out := outcome{Stats: map[string]int{}}
 	if d.Attr != "" {
 		marchAttr = d.Attr
@@ -1693,12 +1718,8 @@ func attributeStream(r *hx.Rng, all, combinators bool, seed int) []Desc {
 		modes = append(modes, "combine", "mirror", "translate", "subtract")
 	}
 	for mi, mode := range modes {
-		if !all && !combinators && mi != seed%2 {
-			continue
-		}
-		if !all && combinators && mi >= 2 && (mi+seed)%2 != 0 {
-			continue
-		}
+		// every mode in every run (small shapes inside one block)
+		_, _, _ = all, seed, mi
 		cpu := hx.Pick(r, []float64{4, 5, 8, 10})
 		var c [3]float64
 		for k := 0; k < 3; k++ {
@@ -1922,7 +1943,8 @@ func main() {
 		return
 	}
 	run := hx.ParseFlags("C09", "Check.C09")
-	hires, pinch, smallDomains, attrStream, attrCombinators, addPar2 := false, false, false, false, false, false
+	// the attribute / combinator / AddFieldParallel2 streams are unconditional since da2fa8f, 7eac22f, 913f893, 924b580
+	hires, pinch, smallDomains, attrStream, attrCombinators, addPar2 := false, false, false, true, true, true
 	for _, a := range flag.Args() {
 		switch a {
 		case "hires":
@@ -2020,7 +2042,7 @@ func main() {
 		jobs = append(jobs, newJob("pow2-extent", d))
 	}
 	if addPar2 {
-		// AddFieldParallel2 samples function(z, y, x) on the tree without fixes/C09-addfieldparallel2-axes.patch
+		// AddFieldParallel2: single-function fields (913f893: samples at (x, y, z)) ...
 		n2 := 3
 		if thorough {
 			n2 = 12
@@ -2033,12 +2055,20 @@ func main() {
 		}
 	}
 	if attrStream {
-		// MarchOnAttribute on another attribute than the position panics on the tree without
-		// fixes/C09-march-on-attribute-scale.patch, and CombineFields / MirrorAxis / Subtract of fields with two Float1
-		// attributes mix the attributes up without fixes/C09-multi-attribute-closures.patch: generated once the
-		// findings are listed (checks/c09.py)
+		// MarchOnAttribute(Parallel) on a non-position attribute of fields with two Float1 functions (da2fa8f), alone
+		// and through CombineFields / MirrorAxis / Subtract / Translate (7eac22f)
 		for _, d := range attributeStream(r, thorough, attrCombinators, int(run.Seed)) {
 			jobs = append(jobs, newJob("attribute", d))
+			// ... and AddFieldParallel2 of fields with two and three Float1 functions (924b580: one result per
+			// function and block)
+			if addPar2 && d.Mode == "add" && d.Shift == [3]float64{} {
+				for dec := 1; dec <= 2; dec++ {
+					e := d
+					e.AddPar2, e.Decoys = true, dec
+					e.Note = fmt.Sprintf("fields with %d Float1 functions added through AddFieldParallel2, marched on `density`", dec+1)
+					jobs = append(jobs, newJob("addfieldparallel2", e))
+				}
+			}
 		}
 	}
 
